@@ -4,7 +4,7 @@ NOT_BUILT = "check not built yet in this round (design in DESIGN.md section 3); 
 
 
 def fill(claim, na):
-    for p in ["C04",  "C10", "C13",
+    for p in ["C04",  "C10", 
               "C15", "C16"]:
         na(p, NOT_BUILT)
     na("C05", "equality of decoded flux with the sector dump is a statement about decoding arbitrary bit-streams "
@@ -119,3 +119,13 @@ def fill(claim, na):
           "documented amounts. Token tables, framing, quoting and number formatting are not decided.",
           "Trusts the man page's expression as the specification, as the property does.",
           "DESIGN.md 3/C03")
+    claim("C13",
+          "bit-provenance comparison of the Watford sector-2 guard with the start-sector layout; branch-fact decision "
+          "table on every identifying return of probe_format and the Acorn test; constant-sector read census; "
+          "guard/usage analysis of the Opus volume-table checks",
+          "Decides structural clauses for every disc: the guard uses the full start sector, each variant is returned "
+          "only under the marker outcomes the property lists, identification reads only marker sectors by number, "
+          "and the Opus table's self-consistency does not depend on a geometry. Content-independence for arbitrary "
+          "bodies and the geometry preference order are not decided.",
+          "Trusts that the smells_like_* predicates are the marker tests.",
+          "DESIGN.md 3/C13")
